@@ -70,7 +70,17 @@ STEP = [None]   # set per obligation (extended slices)
 
 
 LIST_OPS = ("append", "insert", "extend", "setitem", "setslice", "iadd", "add", "mul", "imul", "copy",
-            "pop", "remove", "delitem", "sort", "reverse", "clear", "queries", "init")
+            "pop", "remove", "delitem", "sort", "reverse", "clear", "queries", "init", "setitem_indexobj")
+
+
+class _Idx:
+    """an index that is not an int instance but implements __index__ (numpy integers, IntEnum-like wrappers)"""
+
+    def __init__(self, i):
+        self.i = i
+
+    def __index__(self):
+        return self.i
 
 
 def _list_step(op: str, use_str: bool, n0: int, a, b, c, x, y, idx: int, j: int, kind: int) -> bool:
@@ -97,6 +107,16 @@ def _list_step(op: str, use_str: bool, n0: int, a, b, c, x, y, idx: int, j: int,
 
         def _set_proxy():
             proxy[idx] = x
+        r = _both(_set_proxy, _set_ref)
+    elif op == "setitem_indexobj":
+        # j selects the kind of index: an __index__ object, or something list itself refuses (str, None, float)
+        index = _Idx(idx) if j == 0 else ("0" if j == 1 else (None if j == 2 else 0.0))
+
+        def _set_ref():
+            ref[index] = norm_item(x)
+
+        def _set_proxy():
+            proxy[index] = x
         r = _both(_set_proxy, _set_ref)
     elif op == "setslice":
         it = _iterable(kind, extra, schema, cfg)
@@ -263,8 +283,10 @@ def _s(i):
 
 def _prune(op, idx, j, kind):
     """arguments an operation does not use are pinned (avoids exploring the same behaviour repeatedly)"""
-    uses_idx = op in ("insert", "setitem", "setslice", "pop", "delitem", "queries", "sort")
-    uses_j = op in ("setslice", "mul", "imul", "queries")
+    uses_idx = op in ("insert", "setitem", "setslice", "pop", "delitem", "queries", "sort", "setitem_indexobj")
+    uses_j = op in ("setslice", "mul", "imul", "queries", "setitem_indexobj")
+    if op == "setitem_indexobj" and not 0 <= j <= 3:
+        skip("index kind")
     uses_kind = op in ("extend", "setslice", "iadd", "add", "init")
     if not uses_idx and idx != 0:
         skip("idx unused")
@@ -334,7 +356,8 @@ for _step in (-1, 2, -2):
 # ----------------------------------------------------------------------------- dict
 KEYS = ("a", "B", "c")
 DICT_OPS = ("setitem", "update_map", "update_pairs", "update_kw", "update_both", "update_proxy", "setdefault",
-            "ior", "pop", "popitem", "delitem", "clear", "copy", "queries", "init")
+            "ior", "pop", "popitem", "delitem", "clear", "copy", "queries", "init",
+            "update_kw_names", "update_mapping", "update_nothing", "setdefault_nodefault")
 
 
 def nk(k):
@@ -387,6 +410,18 @@ def _dict_step(op: str, m0: int, v0: int, v1: int, ki: int, kj: int, x: int, y: 
         r = _both(lambda: (proxy.update(other), proxy.update(same)), lambda: (ref.update(narg), ref.update(narg)))
     elif op == "setdefault":
         r = _both(lambda: proxy.setdefault(k1, x), lambda: ref.setdefault(nk(k1), x))
+    elif op == "update_kw_names":
+        # keywords that collide with parameter names of a Python-level update(): every keyword is an entry
+        r = _both(lambda: proxy.update(self=x, iterable=y, other=x, kwargs=y),
+                  lambda: ref.update(SELF=x, ITERABLE=y, OTHER=x, KWARGS=y))
+    elif op == "update_mapping":
+        import types
+        r = _both(lambda: proxy.update(types.MappingProxyType(dict(arg))), lambda: ref.update(types.MappingProxyType(narg)))
+    elif op == "update_nothing":
+        r = _both(lambda: (proxy.update(), proxy.update({}), proxy.update(()), proxy.update({}, {})),
+                  lambda: (ref.update(), ref.update({}), ref.update(()), ref.update({}, {})))
+    elif op == "setdefault_nodefault":
+        r = _both(lambda: proxy.setdefault(k1), lambda: ref.setdefault(nk(k1)))
     elif op == "ior":
         def _p():
             nonlocal proxy
@@ -466,8 +501,10 @@ def _mk_dict(op: str):
             skip("keys unused")
         if op == "init" and m0:
             skip("initial state unused")
-        if op in ("setitem", "setdefault", "pop", "delitem", "queries") and kj:
+        if op in ("setitem", "setdefault", "pop", "delitem", "queries", "setdefault_nodefault") and kj:
             skip("second key unused")
+        if op in ("update_kw_names", "update_nothing") and (ki or kj):
+            skip("keys unused")
         return _dict_step(op, m0, v0, v1, ki, kj, x, y)
 
 
